@@ -325,6 +325,9 @@ fn probe_rels() -> Vec<(String, &'static str)> {
 }
 
 struct Ctx {
+	/// alternate fixture: every path runs through a directory with multi-byte characters in
+	/// its name, and the ignore files are written without a final line terminator
+	alt: bool,
 	base: PathBuf,
 	origin: PathBuf,
 	rt: tokio::runtime::Runtime,
@@ -350,7 +353,8 @@ impl Ctx {
 			}
 		}
 		let rt = tokio::runtime::Builder::new_current_thread().enable_all().build().expect("runtime");
-		Ctx { base, origin, rt, probes }
+		let alt = base.to_string_lossy().contains('ü');
+		Ctx { alt, base, origin, rt, probes }
 	}
 
 	fn site_dir(&self, site: &str) -> Option<PathBuf> {
@@ -552,10 +556,12 @@ struct Eval {
 	viols: Vec<Viol>,
 }
 
-fn write_files(real: &[IgnoreFile], cfg: &Config) {
+fn write_files(real: &[IgnoreFile], cfg: &Config, no_final_newline: bool) {
 	for (f, spec) in real.iter().zip(&cfg.files) {
 		let mut body = spec.lines.join("\n");
-		body.push('\n');
+		if !no_final_newline {
+			body.push('\n');
+		}
 		std::fs::write(&f.path, body).expect("write ignore file");
 	}
 }
@@ -568,7 +574,7 @@ fn remove_files(real: &[IgnoreFile]) {
 
 fn eval_config(ctx: &Ctx, cfg: &Config) -> Eval {
 	let (real, mf) = ctx.layout(cfg);
-	write_files(&real, cfg);
+	write_files(&real, cfg, ctx.alt);
 	let mut ev = Eval { evals: 0, model_vec: vec![], unspecified: 0, viols: vec![] };
 	let compose = match Compose::new(&ctx.origin, &mf) {
 		Ok(c) => c,
@@ -947,7 +953,7 @@ impl NonBlock for std::fs::OpenOptions {
 
 pub fn replay(input: &Value) -> Vec<(String, String)> {
 	let scratch = Scratch::new("c03-replay");
-	let ctx = Ctx::new(&scratch.path().join("t0"));
+	let ctx = Ctx::new(&scratch.path().join(if input["alt"] == true { "tü0-δ" } else { "t0" }));
 	if input["kind"] == "fifo" {
 		let Some(case) = FifoCase::from_json(input) else { return vec![("C03/replay/bad-input".into(), "cannot parse fifo case".into())] };
 		let mut n = 0;
@@ -993,10 +999,12 @@ pub fn run(tier: Tier, seed: u64) -> EnumOut {
 	let mut out = par_map(&cfgs, 16, |chunk, idx| {
 		let mut o = EnumOut::new(rule);
 		let ctx = Ctx::new(&root.join(format!("t{idx}")));
+		let ctx_alt = Ctx::new(&root.join(format!("tü{idx}-δ")));
 		let stride = (chunk.len() / 2).max(1);
 		let mut unspecified = 0u64;
 		let mut constructions_run = 0u64;
 		let mut not_run = 0u64;
+		let mut alt_run = 0u64;
 		for (i, cfg) in chunk.iter().enumerate() {
 			if t0.elapsed() > wall_cap {
 				not_run += 1;
@@ -1025,10 +1033,27 @@ pub fn run(tier: Tier, seed: u64) -> EnumOut {
 					json!({"kind": "config", "files": cfg.json(), "probe": {"path": p.rel, "is_dir": p.is_dir}, "construction": v.cons, "observable": v.observable}),
 				);
 			}
+			// every fourth configuration also on the alternate fixture (same model, same
+			// verdicts expected): directory names with multi-byte characters on the way to
+			// every ignore file, ignore files without a final line terminator
+			if i % 4 == 0 {
+				let ev = eval_config(&ctx_alt, cfg);
+				o.evaluations += ev.evals;
+				alt_run += 1;
+				for v in ev.viols {
+					let p = &ctx_alt.probes[v.probe];
+					o.violate(
+						format!("{}/alternate-fixture", v.key),
+						format!("[non-ASCII base directory, ignore files without a final newline] {}", v.detail),
+						json!({"kind": "config", "alt": true, "files": cfg.json(), "probe": {"path": p.rel, "is_dir": p.is_dir}, "construction": v.cons, "observable": v.observable}),
+					);
+				}
+			}
 		}
 		o.extra.insert("probe_entries_unspecified_skipped".into(), json!(unspecified));
 		o.extra.insert("constructions_run".into(), json!(constructions_run));
 		o.extra.insert("configs_not_run_wall_cap".into(), json!(not_run));
+		o.extra.insert("configs_also_on_alternate_fixture".into(), json!(alt_run));
 		o
 	});
 	// read-completion leg
